@@ -228,6 +228,15 @@ func (x *c03Env) ruleBAs(rid string) {
 
 // isLoopSelect: sel is the select directly inside the goroutine's top-level for loop.
 func (x *c03Env) isLoopSelect(sel *ast.SelectStmt) bool {
+	// the select in which the goroutine receives the parser's sequences is its own wait, wherever the loop
+	// around it was put (loop body moved into a helper that the loop calls)
+	for _, cl := range sel.Body.List {
+		if cc, ok := cl.(*ast.CommClause); ok && cc.Comm != nil {
+			if containsNode(cc.Comm, func(m ast.Node) bool { return isCallTo(x.info, m, "ansi.Parser.Next") }) {
+				return true
+			}
+		}
+	}
 	blk, ok := x.par[sel].(*ast.BlockStmt)
 	if !ok {
 		return false
